@@ -13,6 +13,7 @@ import (
 	"math/rand/v2"
 	"os"
 	"path/filepath"
+	"reflect"
 	"regexp"
 	"runtime"
 	"runtime/debug"
@@ -522,4 +523,55 @@ func LibLockWaiters(pkg string) (funcs []string, stacks []string) {
 		}
 	}
 	return
+}
+
+// ExportedEqual compares two values of the same library type on their exported fields only
+// (recursively): unexported fields are the library's own business (caches, scratch space), and a
+// type that gains one — or a slice, which makes == unusable — must not stop a monitor from building.
+func ExportedEqual(a, b any) bool {
+	return exportedEqual(reflect.ValueOf(a), reflect.ValueOf(b))
+}
+
+func exportedEqual(a, b reflect.Value) bool {
+	if a.IsValid() != b.IsValid() {
+		return false
+	}
+	if !a.IsValid() {
+		return true
+	}
+	if a.Type() != b.Type() {
+		return false
+	}
+	switch a.Kind() {
+	case reflect.Pointer, reflect.Interface:
+		if a.IsNil() || b.IsNil() {
+			return a.IsNil() == b.IsNil()
+		}
+		return exportedEqual(a.Elem(), b.Elem())
+	case reflect.Struct:
+		for i := 0; i < a.NumField(); i++ {
+			if !a.Type().Field(i).IsExported() {
+				continue
+			}
+			if !exportedEqual(a.Field(i), b.Field(i)) {
+				return false
+			}
+		}
+		return true
+	case reflect.Slice, reflect.Array:
+		if a.Len() != b.Len() {
+			return false
+		}
+		for i := 0; i < a.Len(); i++ {
+			if !exportedEqual(a.Index(i), b.Index(i)) {
+				return false
+			}
+		}
+		return true
+	default:
+		if a.CanInterface() && b.CanInterface() {
+			return reflect.DeepEqual(a.Interface(), b.Interface())
+		}
+		return true
+	}
 }
